@@ -32,6 +32,12 @@ def ts(u):
     return E + u * U
 
 
+def set_unit(ms):
+    """The time unit of this run (1 s by default; 50 ms gives periods like 0.1 s that are not exact in floating point)."""
+    global U
+    U = timedelta(milliseconds=ms)
+
+
 class Ref:
     """slot index -> last valid value written (None = written as missing / never written)."""
 
@@ -205,7 +211,8 @@ def key(rb, ref):
 
 
 def bfs(args) -> Acc:
-    tier, cap, period, align, container, depth = args
+    tier, cap, period, align, container, depth, unit_ms = args
+    set_unit(unit_ms)
     acc = Acc()
     rb0, ref0 = mk(cap, period, align, container)
     seen = {key(rb0, ref0)}
@@ -236,7 +243,7 @@ def bfs(args) -> Acc:
                     except IndexError:
                         got_ok = False
                     h = hist + [(d, kind)]
-                    case = {"capacity": cap, "period": period, "align": align, "container": container, "history": h}
+                    case = {"capacity": cap, "period": period, "align": align, "container": container, "history": h, "unit_ms": unit_ms}
                     acc.clauses["old_updates_rejected_others_accepted"] += 1
                     if ok != got_ok:
                         acc.violation(Violation("old_updates_rejected_others_accepted", case,
@@ -265,12 +272,12 @@ def bfs(args) -> Acc:
                         if len(h) >= 2 and any(x[0] % period for x in h):
                             acc.nontrivial += 1
                         if len(seen) % 300 == 2:
-                            acc.sample({"config": {k_: case[k_] for k_ in ("capacity", "period", "align", "container")},
+                            acc.sample({"config": {k_: case[k_] for k_ in ("capacity", "period", "align", "container", "unit_ms")},
                                         "history_offsets_from_newest": h, "content": {str(a): b for a, b in ref2.content().items()}})
                 d += step
         frontier = nxt
     acc.states = len(seen)
-    acc.outcome(f"cap={cap} P={period} align={align} {container}: states={len(seen)}")
+    acc.outcome(f"cap={cap} P={period}x{unit_ms}ms align={align} {container}: states={len(seen)}")
     return acc
 
 
@@ -284,6 +291,7 @@ def _classes(e):
 
 
 def replay(case: dict):
+    set_unit(case.get("unit_ms", 1000))
     rb, ref = mk(case["capacity"], case["period"], case["align"], case["container"])
     counter = 0
     for d, kind in case["history"]:
@@ -312,7 +320,10 @@ def run(tier: str, seed: int, workers: int):
         for period, align in ([(2, 0), (2, 1), (3, 0)] if tier == "quick" else [(2, 0), (2, 1), (3, 0), (3, 1), (4, 2)]):
             for container in ("list", "numpy"):
                 dd = depth if cap <= 3 else depth - 1
-                shards.append((tier, cap, period, align, container, dd))
+                shards.append((tier, cap, period, align, container, dd, 1000))
+        # sampling periods that are not exactly representable as floats (0.1 s, 0.3 s)
+        for period, align, unit_ms in ([(2, 0, 50), (3, 1, 100)] if tier == "quick" else [(2, 0, 50), (2, 1, 50), (3, 1, 100), (3, 0, 100)]):
+            shards.append((tier, cap, period, align, "list" if cap % 2 else "numpy", depth - 1, unit_ms))
     if seed:
         import random
 
